@@ -690,6 +690,44 @@ def probe_outcome_cases():
     return out
 
 
+def var_set_cases():
+    """Path.get_var_set(t): every uninterpreted constant occurring in t, of whatever sort (bit-vector words, the Array-sorted symbols of
+    mapping / dynamic-array storage and of balances, Bool symbols): the state's constraints are found through them"""
+    from contracts.common import config, replay_script
+
+    out = []
+
+    def harness(interp):
+        ctx = interp.ctx
+        x, y = z3.BitVecs("vs_x vs_y", 256)
+        arr = z3.Array("vs_storage_m", z3.BitVecSort(256), z3.BitVecSort(256))
+        bal = z3.Array("vs_balance", z3.BitVecSort(160), z3.BitVecSort(256))
+        p = z3.Bool("vs_flag")
+        a = z3.BitVec("vs_addr", 160)
+        f = z3.Function("vs_f", z3.BitVecSort(256), z3.BitVecSort(256))
+        family = [
+            (x, {x}),
+            (z3.BitVecVal(7, 256), set()),
+            (x + y * 3, {x, y}),
+            (z3.Select(arr, x), {arr, x}),
+            (z3.Select(z3.Store(arr, x, y), z3.BitVecVal(3, 256)), {arr, x, y}),
+            (z3.Store(arr, z3.BitVecVal(1, 256), z3.BitVecVal(2, 256)), {arr}),
+            (z3.Select(bal, a) + 1, {bal, a}),
+            (z3.If(p, x, z3.BitVecVal(0, 256)), {p, x}),
+            (z3.And(p, z3.ULT(x, f(y))), {p, x, y}),
+            (arr, {arr}),
+        ]
+        for k, (term, want) in enumerate(family):
+            path = hs.Path(hm.mk_solver(config()))
+            got = set(interp.call(hs.Path.__dict__["get_var_set"], [path, term], {}))
+            ctx.oblige(f"get_var_set #{k}: exactly the uninterpreted constants of the term, of every sort", z3.BoolVal({v.get_id() for v in got} == {v.get_id() for v in want}), info={"term": str(term)[:60], "got": sorted(str(v) for v in got), "want": sorted(str(v) for v in want)})
+            again = set(interp.call(hs.Path.__dict__["get_var_set"], [path, term], {}))
+            ctx.oblige(f"get_var_set #{k}: the memoised answer is the same", z3.BoolVal({v.get_id() for v in again} == {v.get_id() for v in got}))
+
+    out.append(Case(f"{PROP}/sevm.Path.get_var_set", "words, mapping and balance arrays, Bool symbols, uninterpreted functions", harness, replay=replay_script("mapping_constraints_in_state_id.py", "a mapping-keyed guard: put(k); f(k) requires k > 5, g(k) requires k <= 5"), sources=("halmos.sevm:Path.get_var_set", "halmos.sevm:Path.collect_var_sets")))
+    return out
+
+
 def path_slice_cases():
     """Exec.path_slice: the state variables handed to Path.slice are the variables of the balance, of every symbolic code
     chunk of EVERY account and of every stored value of EVERY account (the state id and the successor's solver are built from
@@ -756,7 +794,7 @@ def build_cases(tier="quick"):
 
     ref += [Case(f"{PROP}/sevm.SEVM.run_message#own-block", c.case, c.harness, replay=c.replay, sources=c.sources) for c in c20.fork_cases() if c.unit.endswith("sevm.SEVM.run_message")]
     ref += [Case(f"{PROP}/sevm.Path.extend_path#successor-owns-its-conditions", c.case, c.harness, replay=c.replay, sources=c.sources) for c in c11.path_growth_cases() if "extend_path" in c.unit]
-    return probe_outcome_cases() + path_slice_cases() + sender_cases() + frontier_cases() + digest_cases() + slice_cases() + target_call_path_cases() + ref
+    return var_set_cases() + probe_outcome_cases() + path_slice_cases() + sender_cases() + frontier_cases() + digest_cases() + slice_cases() + target_call_path_cases() + ref
 
 
 def grounds():
